@@ -119,6 +119,8 @@ PROGRAMS = [
     # close racing with a get in progress, elements left behind
     {"threads": {"o": [["put", 1, False], ["put", 2, True]], "r": [["close"]]}, "gets": 9},
 ]
+# the same races with elements that are all EQUAL but distinct objects (identity, not equality, must decide)
+PROGRAMS += [dict(p, equal=True) for p in PROGRAMS[:2]]
 PROGRAMS_THOROUGH = [
     {"threads": {"o": [["put", 1, True], ["put", 2, True], ["put", 3, False]], "r": [["remove", 2], ["sleep", 2], ["remove", 1],
                                                                                  ["sleep", 1], ["close"]]}, "gets": 9},
@@ -153,7 +155,7 @@ def random_program(seed):
                 ops.append(["sleep", rng.choice([1, 2, 3])])
         threads[name] = ops
     threads["r"] += [["sleep", 3], ["close"]]
-    return {"threads": threads, "gets": 99, "clock": rng.choice([0, 0, 2])}
+    return {"threads": threads, "gets": 99, "clock": rng.choice([0, 0, 2]), "equal": rng.random() < 0.3}
 
 
 def run(c: checklib.Check):
